@@ -1,11 +1,9 @@
 (* C05 (stage 2) -- AC-3 / E-AC-3 syncframe headers: finite-domain proofs by vm_compute.
-   AC-3: the code reads lfeon at a FIXED position (two bits after acmod).  A/52 puts cmixlev / surmixlev /
-   dsurmod (two bits each, presence depending on acmod) between acmod and lfeon, so the position is right exactly
-   for the channel modes with one such field (2/0, 3/0, 2/1, 2/2) -- proved below -- and wrong for 1+1, 1/0, 3/1 and
-   3/2 (refuted below with a 5.1 header that is reported as 5 channels). *)
+   A/52 puts cmixlev / surmixlev / dsurmod (two bits each, presence depending on acmod) between acmod and lfeon.
+   This file: channel modes 2/0, 3/0, 2/1, 2/2 (one such field), E-AC-3, rejected headers; C05_ac3b.v: 1+1, 1/0, 3/1, 3/2. *)
 From Coq Require Import ZArith List Bool Lia.
 Import ListNotations.
-Require Import Base.Py Base.ZList Model.InfoBase Model.InfoMpeg Model.InfoAc3 Gen.Gen_tables Proofs.C05_bits Proofs.C05_mpeg.
+Require Import Base.Py Base.ZList Model.InfoBase Model.InfoMpeg Model.InfoAc3 Gen.Gen_tables Proofs.C05_bits Proofs.C05_mpeg Proofs.C05_ac3_lib.
 Open Scope Z_scope.
 
 Theorem ac3_tables_match_spec : ac3_table_diffs = [[]; []; []; []; []].
@@ -13,26 +11,6 @@ Proof. vm_compute. reflexivity. Qed.
 
 Lemma ac3_good_checked : forallb ac3_check (ac3_domain ac3_good_acmods) = true.
 Proof. vm_compute. reflexivity. Qed.
-
-Lemma ac3_domain_In acmods fscod frmsizecod bsid acmod lfe mix :
-  0 <= fscod <= 2 -> 0 <= frmsizecod <= 37 -> 0 <= bsid <= 10 -> In acmod acmods -> 0 <= lfe <= 1 -> In mix [0; 5; 10] ->
-  In (mkAc3 fscod frmsizecod bsid 0 acmod (mix mod 4) ((mix / 4) mod 4) (mix mod 4) lfe 27) (ac3_domain acmods).
-Proof.
-  intros H1 H2 H3 H4 H5 H6. unfold ac3_domain.
-  apply in_flat_map; exists fscod; split; [apply zrange_In; lia|].
-  apply in_flat_map; exists frmsizecod; split; [apply zrange_In; lia|].
-  apply in_flat_map; exists bsid; split; [apply zrange_In; lia|].
-  apply in_flat_map; exists acmod; split; [exact H4|].
-  apply in_flat_map; exists lfe; split; [apply zrange_In; lia|].
-  apply (in_map (fun mix => mkAc3 fscod frmsizecod bsid 0 acmod (mix mod 4) ((mix / 4) mod 4) (mix mod 4) lfe 27)). exact H6.
-Qed.
-
-Lemma ac3_check_true p : ac3_check p = true ->
-  exists l, decode_ac3 (build_ac3_frame p) = Ok l /\ firstn 4 l = expected_ac3 p.
-Proof.
-  unfold ac3_check. destruct (decode_ac3 (build_ac3_frame p)) as [l|e]; [|discriminate].
-  intros H. exists l. split; [reflexivity | apply list_eqb_eq; exact H].
-Qed.
 
 (* every sample rate code, frame size code, bsid 0..10, LFE flag, for the channel modes 2/0, 3/0, 2/1, 2/2 *)
 Theorem ac3_header_good_modes fscod frmsizecod bsid acmod lfe mix :
@@ -45,21 +23,12 @@ Proof.
   apply ac3_domain_In; assumption.
 Qed.
 
-(* REFUTED for 3/2 + LFE (5.1): 48 kHz, 192 kbit/s, bsid 8, acmod 7, cmixlev 1, surmixlev 1, lfeon 1 is reported as 5 channels *)
-Theorem ac3_lfe_position_refuted :
-  exists p l, a3_acmod p = 7 /\ a3_lfeon p = 1 /\ decode_ac3 (build_ac3_frame p) = Ok l /\
-              nth 3 l 0 = 5 /\ nth 3 (expected_ac3 p) 0 = 6.
-Proof.
-  exists (mkAc3 0 20 8 0 7 1 1 0 1 27). exists [0; 48000; 192000; 5; 432; 192000].
-  split; [reflexivity|]. split; [reflexivity|]. split; [vm_compute; reflexivity|].
-  split; [reflexivity | vm_compute; reflexivity].
-Qed.
-
-(* how often: in the other four channel modes exactly the headers whose bit at the fixed position differs from lfeon *)
-Theorem ac3_bad_modes_count :
-  zlen (filter (fun p => negb (ac3_check p)) (ac3_domain [0; 1; 5; 7])) = 15048 /\
-  zlen (ac3_domain [0; 1; 5; 7]) = 30096.
-Proof. vm_compute. split; reflexivity. Qed.
+(* regression witness of the defect fixed in /repo ("AC-3 LFE flag was read at a fixed bit position"):
+   48 kHz, 192 kbit/s, bsid 8, acmod 7 (3/2), cmixlev 1, surmixlev 1, lfeon 1 -- was reported with 5 channels *)
+Theorem ac3_51_regression :
+  decode_ac3 (build_ac3_frame (mkAc3 0 20 8 0 7 1 1 0 1 27)) = Ok [0; 48000; 192000; 6; 440; 192000] /\
+  build_ac3_header (mkAc3 0 20 8 0 7 1 1 0 1 27) = [11; 119; 0; 0; 20; 64; 235; 216; 64].
+Proof. split; vm_compute; reflexivity. Qed.
 
 Lemma eac3_checked : forallb eac3_check eac3_domain = true.
 Proof. vm_compute. reflexivity. Qed.
